@@ -303,9 +303,9 @@ Proof.
 Qed.
 
 (* what a successful rebuild of a non-resizable volume is made of *)
-Lemma asm_vol_v_inv fx pol ffs3 h buf files h' b :
-  asm_vol_v fx pol ffs3 h buf files = Ok (h', b) ->
-  vol_verbatim fx h files = false -> v_resizable h = false ->
+Lemma asm_vol_v_inv pol ffs3 h buf files h' b :
+  asm_vol pol ffs3 h buf files = Ok (h', b) ->
+  vol_verbatim h files = false -> v_resizable h = false ->
   exists hdr b1 c s rest hb,
     slice 0 (v_dataoff h) buf = Some hdr /\
     place_files pol (Some (v_length h)) hdr (v_dataoff h) files = Ok b1 /\
@@ -321,11 +321,11 @@ Lemma asm_vol_v_inv fx pol ffs3 h buf files h' b :
     b = splice 50 (le_enc 2 ((0 - sum16 hb) mod 65536)) b6 /\
     v_length h' = v_length h /\ v_blocks h' = v_blocks h.
 Proof.
-  intros H Hv Hr. unfold asm_vol_v in H. rewrite Hv, Hr in H.
+  intros H Hv Hr. unfold asm_vol in H. fold (vol_verbatim h files) in H. rewrite Hv, Hr in H.
   destruct (v_length h <? zlen buf); [discriminate|].
   destruct (v_blocks h) as [|[c s] rest] eqn:Eb; [discriminate|].
   destruct (v_dataoff h <? v_hdrlen h) eqn:E1; [discriminate|].
-  destruct (fx && (zlen buf <? v_dataoff h)); [discriminate|].
+  destruct (zlen buf <? v_dataoff h); [discriminate|].
   apply bind_ok in H as (hdr & Hs & H). destruct (slice 0 (v_dataoff h) buf) as [hdr'|] eqn:Esl; [|discriminate].
   cbn [of_opt] in Hs. inversion Hs; subst hdr'.
   apply bind_ok in H as (b1 & Hp & H).
@@ -351,9 +351,9 @@ Proof.
   try (destruct (Z.even (v_hdrlen h)); [reflexivity | discriminate]).
 Qed.
 
-Lemma asm_vol_v_len fx pol ffs3 h buf files h' b :
-  asm_vol_v fx pol ffs3 h buf files = Ok (h', b) ->
-  vol_verbatim fx h files = false -> v_resizable h = false ->
+Lemma asm_vol_v_len pol ffs3 h buf files h' b :
+  asm_vol pol ffs3 h buf files = Ok (h', b) ->
+  vol_verbatim h files = false -> v_resizable h = false ->
   zlen b = v_length h /\ v_length h' = v_length h.
 Proof.
   intros H Hv Hr.
@@ -373,12 +373,12 @@ Qed.
 (* DESIGN section 6 #20, repaired: a volume whose file list became empty is header + erased space *)
 Lemma asm_vol_empty_fixed pol ffs3 h buf h' b :
   supported_fv (v_guid h) = true -> v_resizable h = false -> 60 <= v_dataoff h ->
-  asm_vol_v true pol ffs3 h buf [] = Ok (h', b) ->
+  asm_vol pol ffs3 h buf [] = Ok (h', b) ->
   zlen b = v_length h /\ v_length h' = v_length h /\
   zskipn (v_dataoff h) b = zrepeat pol (v_length h - v_dataoff h).
 Proof.
   intros Hsup Hr Hd H.
-  assert (Hv : vol_verbatim true h [] = false) by (cbn; rewrite Hsup; reflexivity).
+  assert (Hv : vol_verbatim h [] = false) by (unfold vol_verbatim; rewrite Hsup; reflexivity).
   destruct (asm_vol_v_len _ _ _ _ _ _ _ _ H Hv Hr) as [L1 L2]. repeat split; auto.
   destruct (asm_vol_v_inv _ _ _ _ _ _ _ _ H Hv Hr)
     as (hdr & b1 & c & s & rest & hb & Hs & Hp & Hl & Hdo & He & Hb & Hz).
@@ -494,7 +494,6 @@ Qed.
 Section Outside.
 Variable enc : Z -> bytes -> option bytes.
 Variable s2u : bytes -> bytes.
-Variable fx : bool.
 
 Lemma sec_asm_pol h buf kids st n' st' : sec_asm enc s2u h buf kids st = Ok (n', st') -> fst st' = fst st.
 Proof.
@@ -515,17 +514,17 @@ Proof.
     inversion H; reflexivity.
 Qed.
 
-Lemma vol_asm_v_pol h buf kids st n' st' : vol_asm_v fx h buf kids st = Ok (n', st') -> fst st' = fst st.
+Lemma vol_asm_v_pol h buf kids st n' st' : vol_asm h buf kids st = Ok (n', st') -> fst st' = fst st.
 Proof.
-  unfold vol_asm_v. destruct st as [pol f]. intros H.
+  unfold vol_asm. destruct st as [pol f]. intros H.
   apply bind_ok in H as ([h' nb] & Hb & H). inversion H; reflexivity.
 Qed.
 
 Lemma asm_elems_v_pol_of l :
-  Forall (fun n => forall st n' st', fst st <> 240 -> asm_v enc s2u fx n st = Ok (n', st') -> fst st' = fst st) l ->
-  forall st l' st', fst st <> 240 -> asm_elems_v enc s2u fx l st = Ok (l', st') -> fst st' = fst st.
+  Forall (fun n => forall st n' st', fst st <> 240 -> asm enc s2u n st = Ok (n', st') -> fst st' = fst st) l ->
+  forall st l' st', fst st <> 240 -> asm_elems enc s2u l st = Ok (l', st') -> fst st' = fst st.
 Proof.
-  induction 1 as [|x r Hx Hr IH]; intros st l' st' Hp H; cbn [asm_elems_v] in H.
+  induction 1 as [|x r Hx Hr IH]; intros st l' st' Hp H; cbn [asm_elems] in H.
   - inversion H; reflexivity.
   - apply bind_ok in H as ([x' st1] & Ex & H). apply bind_ok in H as ([r' st2] & Er & H).
     inversion H; subst. pose proof (Hx _ _ _ Hp Ex) as E1.
@@ -533,15 +532,15 @@ Proof.
 Qed.
 
 Lemma asm_v_pol : forall n st n' st', fst st <> 240 ->
-  asm_v enc s2u fx n st = Ok (n', st') -> fst st' = fst st.
+  asm enc s2u n st = Ok (n', st') -> fst st' = fst st.
 Proof.
   induction n as [h buf kids IH | h buf kids IH | h buf kids IH | off buf] using node_ind';
     intros st n' st' Hp H.
-  - rewrite asm_v_sec in H. apply bind_ok in H as ([kids' st1] & Ek & H).
+  - rewrite asm_sec in H. apply bind_ok in H as ([kids' st1] & Ek & H).
     rewrite (sec_asm_pol _ _ _ _ _ _ H). eapply asm_elems_v_pol_of; eauto.
-  - rewrite asm_v_file in H. apply bind_ok in H as ([kids' st1] & Ek & H).
+  - rewrite asm_file in H. apply bind_ok in H as ([kids' st1] & Ek & H).
     rewrite (file_asm_pol _ _ _ _ _ _ H). eapply asm_elems_v_pol_of; eauto.
-  - rewrite asm_v_vol in H.
+  - rewrite asm_vol_eq in H.
     destruct (set_polarity (fst st) (fv_polarity (v_attrs h))) as [pol0|] eqn:Es; [|discriminate].
     apply set_polarity_keep in Es; auto. subst pol0.
     apply bind_ok in H as ([kids' st1] & Ek & H). apply bind_ok in H as ([n2 st2] & Ev & H).
@@ -553,37 +552,37 @@ Qed.
 
 (* a volume or padding element hands the state on unchanged *)
 Lemma asm_v_elem_state n st n' st' : fst st <> 240 -> is_voln n = true ->
-  asm_v enc s2u fx n st = Ok (n', st') -> st' = st.
+  asm enc s2u n st = Ok (n', st') -> st' = st.
 Proof.
   intros Hp Hv H. pose proof (asm_v_pol _ _ _ _ Hp H) as E.
-  destruct n; try discriminate Hv. rewrite asm_v_vol in H.
+  destruct n; try discriminate Hv. rewrite asm_vol_eq in H.
   destruct (set_polarity (fst st) (fv_polarity (v_attrs h))); [|discriminate].
   apply bind_ok in H as ([kids' st1] & Ek & H). apply bind_ok in H as ([n2 st2] & Ev & H).
   inversion H; subst. destruct st as [p f]. cbn [fst snd] in *. rewrite E. reflexivity.
 Qed.
 
 Lemma asm_elems_v_app a b st :
-  asm_elems_v enc s2u fx (a ++ b) st =
-  (do r1 <- asm_elems_v enc s2u fx a st; let '(a', st1) := r1 in
-   do r2 <- asm_elems_v enc s2u fx b st1; let '(b', st2) := r2 in Ok (a' ++ b', st2)).
+  asm_elems enc s2u (a ++ b) st =
+  (do r1 <- asm_elems enc s2u a st; let '(a', st1) := r1 in
+   do r2 <- asm_elems enc s2u b st1; let '(b', st2) := r2 in Ok (a' ++ b', st2)).
 Proof.
   revert st. induction a as [|x r IH]; intros st.
-  - cbn [app asm_elems_v bind]. destruct (asm_elems_v enc s2u fx b st) as [[b' st2]| | |]; reflexivity.
-  - cbn [app asm_elems_v]. destruct (asm_v enc s2u fx x st) as [[x' st1]| | |]; cbn [bind]; try reflexivity.
-    rewrite IH. destruct (asm_elems_v enc s2u fx r st1) as [[r' st2]| | |]; cbn [bind]; try reflexivity.
-    destruct (asm_elems_v enc s2u fx b st2) as [[b' st3]| | |]; reflexivity.
+  - cbn [app asm_elems_v bind]. destruct (asm_elems enc s2u b st) as [[b' st2]| | |]; reflexivity.
+  - cbn [app asm_elems_v]. destruct (asm enc s2u x st) as [[x' st1]| | |]; cbn [bind]; try reflexivity.
+    rewrite IH. destruct (asm_elems enc s2u r st1) as [[r' st2]| | |]; cbn [bind]; try reflexivity.
+    destruct (asm_elems enc s2u b st2) as [[b' st3]| | |]; reflexivity.
 Qed.
 
-Lemma asm_elems_v_length l : forall st l' st', asm_elems_v enc s2u fx l st = Ok (l', st') -> length l' = length l.
+Lemma asm_elems_v_length l : forall st l' st', asm_elems enc s2u l st = Ok (l', st') -> length l' = length l.
 Proof.
-  induction l as [|x r IH]; intros st l' st' H; cbn [asm_elems_v] in H.
+  induction l as [|x r IH]; intros st l' st' H; cbn [asm_elems] in H.
   - inversion H; reflexivity.
   - apply bind_ok in H as ([x' st1] & Ex & H). apply bind_ok in H as ([r' st2] & Er & H).
     inversion H; subst. cbn [length]. f_equal. eapply IH; eauto.
 Qed.
 
 Lemma asm_elems_v_pol l st l' st' : fst st <> 240 ->
-  asm_elems_v enc s2u fx l st = Ok (l', st') -> fst st' = fst st.
+  asm_elems enc s2u l st = Ok (l', st') -> fst st' = fst st.
 Proof.
   intros Hp. apply asm_elems_v_pol_of; auto.
   apply Forall_forall. intros n _. apply asm_v_pol.
@@ -591,15 +590,15 @@ Qed.
 
 (* the assembled form of the element [x] that follows [l1] *)
 Definition asm_at (l1 : list node) (x : node) (st : ast) : node :=
-  match asm_elems_v enc s2u fx l1 st with
-  | Ok (_, st1) => match asm_v enc s2u fx x st1 with Ok (xa, _) => xa | _ => x end
+  match asm_elems enc s2u l1 st with
+  | Ok (_, st1) => match asm enc s2u x st1 with Ok (xa, _) => xa | _ => x end
   | _ => x
   end.
 
 Lemma outside_untouched_lemma : forall l1 x x' l2 len pol ffs3 r r',
   pol <> 240 -> is_voln x = true -> is_voln x' = true ->
-  asm_bios_v enc s2u fx (l1 ++ x :: l2) len (pol, ffs3) = Ok r ->
-  asm_bios_v enc s2u fx (l1 ++ x' :: l2) len (pol, ffs3) = Ok r' ->
+  asm_bios enc s2u (l1 ++ x :: l2) len (pol, ffs3) = Ok r ->
+  asm_bios enc s2u (l1 ++ x' :: l2) len (pol, ffs3) = Ok r' ->
   zlen (node_buf (asm_at l1 x (pol, ffs3))) = zlen (node_buf (asm_at l1 x' (pol, ffs3))) ->
   let lo := elems_len (fst (fst r)) (length l1) in
   let hi := lo + zlen (node_buf (asm_at l1 x (pol, ffs3))) in
@@ -607,13 +606,13 @@ Lemma outside_untouched_lemma : forall l1 x x' l2 len pol ffs3 r r',
     nth_error (snd (fst r)) (Z.to_nat i) = nth_error (snd (fst r')) (Z.to_nat i).
 Proof.
   intros l1 x x' l2 len pol ffs3 r r' Hp Hx Hx' H H' Hlen.
-  unfold asm_bios_v in H, H'.
+  unfold asm_bios in H, H'.
   apply bind_ok in H as ([es st1] & He & H). apply bind_ok in H' as ([es' st1'] & He' & H').
   rewrite asm_elems_v_app in He, He'.
   apply bind_ok in He as ([l1a sta] & E1 & He). apply bind_ok in He' as ([l1a' sta'] & E1' & He').
   rewrite E1 in E1'. inversion E1'; subst l1a' sta'. clear E1'.
   assert (Pa : fst sta = pol) by (apply (asm_elems_v_pol l1 (pol, ffs3) l1a sta Hp E1)).
-  cbn [asm_elems_v] in He, He'.
+  cbn [asm_elems] in He, He'.
   apply bind_ok in He as ([r2 st2] & He & Hr). apply bind_ok in He' as ([r2' st2'] & He' & Hr').
   apply bind_ok in He as ([xa stb] & Ex & He). apply bind_ok in He' as ([xa' stb'] & Ex' & He').
   assert (Hpa : fst sta <> 240) by (rewrite Pa; exact Hp).
@@ -706,9 +705,9 @@ Qed.
 (* a rebuilt resizable volume with a power-of-two block size: exactly Length bytes, Length is the
    old one or, when the files need more, the next block boundary, and the first block-map entry
    says so *)
-Lemma asm_vol_v_len_resizable fx pol ffs3 h buf files h' b c k rest :
-  asm_vol_v fx pol ffs3 h buf files = Ok (h', b) ->
-  vol_verbatim fx h files = false -> v_resizable h = true ->
+Lemma asm_vol_v_len_resizable pol ffs3 h buf files h' b c k rest :
+  asm_vol pol ffs3 h buf files = Ok (h', b) ->
+  vol_verbatim h files = false -> v_resizable h = true ->
   v_blocks h = (c, 2 ^ k) :: rest -> 0 <= k < 64 -> 0 <= v_dataoff h ->
   end_of (v_dataoff h) files + 2 ^ k <= 2 ^ 64 ->
   zlen b = v_length h' /\
@@ -716,11 +715,11 @@ Lemma asm_vol_v_len_resizable fx pol ffs3 h buf files h' b c k rest :
    (v_length h < v_length h' /\ v_length h' = align (end_of (v_dataoff h) files) (2 ^ k) /\
     v_blocks h' = ((v_length h' / 2 ^ k) mod U32, 2 ^ k) :: rest)).
 Proof.
-  intros H Hv Hr Hb Hk Hd Hend. unfold asm_vol_v in H. rewrite Hv, Hr, Hb in H.
+  intros H Hv Hr Hb Hk Hd Hend. unfold asm_vol in H. fold (vol_verbatim h files) in H. rewrite Hv, Hr, Hb in H.
   assert (Hp : 0 < 2 ^ k) by (apply Z.pow_pos_nonneg; lia).
   destruct (v_length h <? zlen buf); [discriminate|].
   destruct (v_dataoff h <? v_hdrlen h) eqn:E1; [discriminate|].
-  destruct (fx && (zlen buf <? v_dataoff h)); [discriminate|].
+  destruct (zlen buf <? v_dataoff h); [discriminate|].
   destruct (slice 0 (v_dataoff h) buf) as [hdr|] eqn:Esl; [|discriminate].
   cbn [of_opt bind] in H.
   apply bind_ok in H as (b1 & Hpl & H).
